@@ -186,18 +186,44 @@ theorem c08_resource (a : BoundedAttributes) (h : attrsAll PyVal.holdable a.item
 /-! ### auth -/
 
 /-- **every poll and every snapshot request carries the provider's metadata** — for every auth configuration (no
-    provider, basic with / without credentials, any custom provider), every sequence of polls and pushes, starting
-    from the empty metadata cache: each request that reaches a stub has a `metadata=` argument and it is what the
-    configured provider supplies -/
-theorem c08_auth (c : AuthCfg) (ops : List Op) :
-    ∀ w ∈ run c ⟨none⟩ ops, ∀ x, w.metadata = some x → x = some (expectedMetadata c) :=
-  run_inv c ops ⟨none⟩ (Or.inl rfl)
+    provider, basic with / without credentials, any custom provider), every sequence of polls and pushes, and every
+    placement of provider failures (`faults i`: the provider raises the i-th time it is asked), starting from the
+    empty metadata cache: each request that reaches a stub has a `metadata=` argument and it is what the configured
+    provider supplies.  (An operation during which the provider raises sends nothing.) -/
+theorem c08_auth (c : AuthCfg) (faults : Nat → Bool) (ops : List Op) :
+    ∀ w ∈ run c faults ⟨none, 0⟩ ops, ∀ x, w.metadata = some x → x = some (expectedMetadata c) :=
+  run_inv c faults ops ⟨none, 0⟩ (Or.inl rfl)
+
+/-- a failed attempt leaves nothing behind: as long as nothing is cached, the first time the provider answers its
+    value is what `metadata()` returns -/
+theorem c08_auth_recovers (c : AuthCfg) (faults : Nat → Bool) (g : Grpc) (h : g.cache = none)
+    (hok : faults g.asked = false) : (g.metadata c faults).1 = some (expectedMetadata c) :=
+  metadata_recovers c faults g h hok
+
+/-- …and a provider failure caches nothing -/
+theorem c08_auth_fault_not_cached (c : AuthCfg) (faults : Nat → Bool) (g : Grpc) (h : g.cache = none)
+    (hraise : (g.metadata c faults).1 = none) : (g.metadata c faults).2.cache = none := by
+  unfold Grpc.metadata at hraise ⊢
+  simp only [h] at hraise ⊢
+  cases hp : provided c with
+  | none => simp [hp] at hraise
+  | some p =>
+    simp only [hp] at hraise ⊢
+    by_cases hf : faults g.asked = true
+    · simp [hf, h]
+    · simp [hf] at hraise
+
+/-- **any number of threads** at `metadata()` (poll timer, task pool), any schedule of their two atomic regions:
+    every request is sent with the provider's metadata — no thread ever sees a placeholder -/
+theorem c08_auth_concurrent (c : AuthCfg) (n : Nat) (sched : List Nat) :
+    ∀ md ∈ (crun c n sched).sent, md = expectedMetadata c :=
+  crun_inv c sched ⟨none, List.replicate n 0, []⟩ ⟨Or.inl rfl, by intro md h; cases h⟩
 
 /-- non-vacuity: a poll and a push with a custom provider both go out with its metadata; a snapshot that cannot be
     converted sends nothing -/
 example :
     let c : AuthCfg := ⟨some "my.Provider", .custom [("authorization", "Bearer t"), ("x-org", "7")], none, none⟩
-    (run c ⟨none⟩ [.poll 1 [] ⟨[], 0⟩, .push (witness (.bool true) (Text.ofString "fn")),
+    (run c (fun _ => false) ⟨none, 0⟩ [.poll 1 [] ⟨[], 0⟩, .push (witness (.bool true) (Text.ofString "fn")),
                    .push (witness (.bool true) [0xDC00])]).map Wire.metadata
       = [some (some [("authorization", "Bearer t"), ("x-org", "7")]),
          some (some [("authorization", "Bearer t"), ("x-org", "7")]), none] := by
@@ -206,7 +232,18 @@ example :
 /-- basic auth without a password supplies no metadata — and the requests still carry the (empty) metadata argument -/
 example :
     let c : AuthCfg := ⟨some "deep.api.auth.BasicAuthProvider", .basic, some "bob", none⟩
-    (run c ⟨none⟩ [.poll 1 [] ⟨[], 0⟩]).map Wire.metadata = [some (some [])] := by
+    (run c (fun _ => false) ⟨none, 0⟩ [.poll 1 [] ⟨[], 0⟩]).map Wire.metadata = [some (some [])] := by
+  decide
+
+/-- the provider fails the first two times it is asked: those two operations send nothing, everything after carries
+    the metadata; and two threads overlapping at the first use both send it -/
+example :
+    let c : AuthCfg := ⟨some "my.Provider", .custom [("authorization", "Bearer t")], none, none⟩
+    (run c (fun i => decide (i < 2)) ⟨none, 0⟩
+        [.poll 1 [] ⟨[], 0⟩, .push (witness (.bool true) (Text.ofString "fn")), .poll 2 [] ⟨[], 0⟩,
+         .push (witness (.bool true) (Text.ofString "fn"))]).map Wire.metadata
+      = [none, none, some (some [("authorization", "Bearer t")]), some (some [("authorization", "Bearer t")])] ∧
+    (crun c 2 [0, 1, 1, 0]).sent = [[("authorization", "Bearer t")], [("authorization", "Bearer t")]] := by
   decide
 
 end C08
